@@ -344,6 +344,7 @@ func units(string) []engine.Unit {
 		{Name: "int", Run: func(r *engine.Rec) { run(r, &cfg[int]{name: "Map[int]", keys: []int{2, -1, 0, 9}}) }},
 		{Name: "rune", Run: func(r *engine.Rec) { run(r, &cfg[rune]{name: "Map[rune]", keys: []rune{'b', 'a', 0, 'z'}}) }},
 		{Name: "any", Run: func(r *engine.Rec) { run(r, &cfg[any]{name: "Map[any]", keys: []any{1, int64(1), "1", 2.5}}) }},
+		{Name: "values-of-every-kind-and-the-source-map", Run: valueKinds},
 	}
 }
 
